@@ -1,13 +1,16 @@
-// unit: patch — C05 (both engines) ; also the patch half of C01
+// unit: serve — hub server (C03, C10, C11, C12)
 #![allow(unused_imports, unused_variables, dead_code, non_snake_case, unused_mut, unused_assignments)]
 use vstd::prelude::*;
+use vstd::std_specs::btree::*;
+use std::collections::BTreeMap;
 use std::io::{Read, Seek, SeekFrom, Write};
+use std::path::{Path, PathBuf};
+use std::ffi::{OsStr, OsString};
 verus! {
 global size_of usize == 8;
 //@include lib/ext_ioerror.rs
 //@include lib/io_model.rs
-//@include lib/hash_fns.rs
-//@include lib/delta_fns.rs
-//@include lib/patch_fns.rs
+//@include lib/serve_world.rs
+//@include lib/serve_fns.rs
 }
 fn main() {}
